@@ -4,7 +4,7 @@
 EXTENDS O2OFlatten, Json
 CONSTANTS MaxMembers, MaxGhosts, AllItems
 PathsDef == { <<>>, <<"a">>, <<"ab">>, <<"a","c">>, <<"a","c","d">>, <<"ab","e">> }
-GPathsDef == { <<"a">>, <<"a","c">>, <<"g">> }       \* ghosts in a node members also use, and in a node only ghosts use
+GPathsDef == { <<"a">>, <<"a","c">>, <<"g">>, <<"h">>, <<"g","k">> }       \* ghosts in nodes members also use, and in nodes only ghosts use (several of them: C19)
 Items == {"none", "expr", "ren", "cded"}       \* cded: default #[child(zz)] written first + #[child(D| path)] dedicated to each counterpart
 VARIABLE in
 Init == \E gs \in UNION {[1..n -> GPathsDef] : n \in 0..MaxGhosts} : in = [ms |-> <<>>, gs |-> [j \in DOMAIN gs |-> [path |-> gs[j]]]]
